@@ -227,6 +227,14 @@ def r3(ctx):
                 if extra:
                     ok = False
                     detail = "an already phased call is skipped under %s: it comes out unphased" % extra
+    if ok:
+        # the carry loop lies on every path to a return (no early exit before it)
+        head = cfg.node_of(loops[0])
+        for r_ in [n for n in walk_function(cs.node) if isinstance(n, ast.Return)]:
+            p_ = cfg.find_path(cfg.entry, cfg.node_of(r_), avoid_nodes=[head])
+            if p_ is not None:
+                ok = False
+                detail = "consensus() can return before the loop that carries already phased calls: " + " -> ".join(cfg.describe_path(p_)[-3:])
     ctx.ob(cs.qual, "phased-calls-carried", ok, cs.loc(loops[0]) if loops else cs.loc(), "every call with an input phase is emitted with that phase's alleles on super-reads 0/1, whether or not a tagged read covers it" if ok else detail)
     # the vote loop must not touch positions that were carried
     vl = [n for n in walk_function(cs.node) if isinstance(n, ast.For) and u(n.iter) in ("votes.items()", "votes")]
@@ -235,11 +243,12 @@ def r3(ctx):
         vapps = [c for c in ast.walk(vl[0]) if isinstance(c, ast.Call) and isinstance(c.func, ast.Attribute) and c.func.attr == "append" and u(c.func.value).startswith("super_reads[")]
         pos = u(vl[0].target.elts[0]) if isinstance(vl[0].target, ast.Tuple) else u(vl[0].target)
         ok2 = bool(vapps)
-        for c in vapps:
-            ga = guard_atoms(cfg, cfg.node_containing(c))
+        effects = [cfg.node_containing(c) for c in vapps] + [cfg.node_of(s_.stmt) for s_ in util.store_sites(vl[0]) if s_.kind == "subscript" and u(s_.target.value) == "components"]
+        for node in effects:
+            ga = guard_atoms(cfg, node)
             if not ((("%s in components" % pos), False) in ga or (("None is %s[%s]" % (phased_p, pos)), True) in ga):
                 ok2 = False
-    ctx.ob(cs.qual, "votes-do-not-override-input-phase", ok2, cs.loc(vl[0]) if vl else cs.loc(), "a position that carries an input phase is skipped by the vote loop" if ok2 else "the vote loop emits alleles for positions that already carry an input phase (re-derived instead of carried)")
+    ctx.ob(cs.qual, "votes-do-not-override-input-phase", ok2, cs.loc(vl[0]) if vl else cs.loc(), "a position that carries an input phase is skipped by the vote loop" if ok2 else "the vote loop writes alleles or a phase set for positions that already carry an input phase (re-derived / overwritten instead of carried)")
     # phased dict is filled for every variant of the table
     run = ctx.func(HP + ".run_haplotagphase")
     st = [s for s in util.store_sites(run.node) if s.kind == "subscript" and u(s.target.value) == "phased"]
